@@ -12,7 +12,8 @@ C19 line protocol.  One line = one case.
   jl <b|t> <0|1> <hex>         JSONLIterator forward (binary / text-mode file) and reverse,
                                ignore_errors 0/1 -> `F<objs>[!Err] R<objs>[!Err]`; with ignore_errors 0 followed by
                                ` A<results> B<results>`: every next() result forward / reverse, the iteration
-                               being resumed after each error (`!Err` in place)
+                               being resumed after each error (`!Err` in place); for binary files ` P<positions>`
+                               before that: cur_byte_pos read after each object of the forward loop
   js <0|1> <target> <hex>      JSONLIterator(text-mode file, ignore_errors, rel_seek) forward and reverse, with
                                target = int(size * rel_seek), or `zero` for rel_seek=0.0
                                -> `F<objs>[!Err] R<objs>[!Err]`, or `hang`
@@ -163,6 +164,7 @@ def handle (line : String) : String :=
       let fls := if mode == "b" then fileLinesB c else fileLinesT false c
       -- strict mode: also the results of going on calling next() after each error
       "F" ++ showRun fwd ++ " R" ++ showRun rev ++
+        (if mode == "b" then " P" ++ showNats (jsonlForwardPosB parseMini ignore c) "." else "") ++
         (if ignore then "" else " A" ++ showOutcomes (outcomes parseMini false fls) ++
           " B" ++ showOutcomes (outcomes parseMini false (reverseIterLines c 4096)))
     | none => "bad-op"
